@@ -9,6 +9,10 @@ def load_all():
     global _loaded
     if _loaded:
         return
-    for m in MODULES:
-        importlib.import_module(m)
+    mods = [importlib.import_module(m) for m in MODULES]
+    # parse the contract / spec sources now, so that a run is not disturbed by later edits
+    from pyvc import contract as C, spec, lemmalib
+    for m in mods + [spec, lemmalib]:
+        with open(m.__file__) as f:
+            C._parse_file(m.__file__, f.read())
     _loaded = True
